@@ -47,7 +47,11 @@ def _worker(args):
 def run(ctx):
     n = ctx.n(150, 3000)
     rng = random.Random(ctx.seed)
-    cases = [evocase.gen_case(rng, {"pkey_move": i % 5 < 2, "trashbin": True, "late_faults": 0.4}) for i in range(n)]
+    cases = [evocase.gen_case(rng, {"pkey_move": i % 5 < 2, "trashbin": True}) for i in range(n)]
+    # the same family with handlers still failing while the last life merges the new dataschema
+    # (a separate stream: the histories above stay what they were)
+    rng3 = random.Random(ctx.seed ^ 0x1a7e)
+    cases += [evocase.gen_case(rng3, {"pkey_move": False, "trashbin": True, "late_faults": 1.0}) for i in range(n // 5)]
     # directed: the server starts declaring a type the restarted client already maps, and handlers
     # of that life still fail while (and right after) the running client merges the new dataschema
     rng2, directed = random.Random(ctx.seed ^ 0x17e), []
